@@ -117,15 +117,19 @@ def translate_data() -> str:
         return b.name
 
     out = []
-    out.append(table("gen_mro", "list cls", lambda c: names(inspect.getmro(c))))
+    # every universe class b with issubclass(c, b) (real issubclass, ABC registration included)
+    out.append(table("gen_mro", "list cls", lambda c: names([b for b in U.CLASSES.values() if issubclass(c, b)])))
     out.append(table("gen_base_classes", "list cls", lambda c: names(checker.make_type_object(c).base_classes)))
     out.append(table("gen_art_bases", "list cls", lambda c: names(checker.make_type_object(c).artificial_bases)))
     out.append(table("gen_type_boolab", "boolab", lambda c: boolab(_get_type_boolability(c))))
     out.append(table("gen_type_boolab_exact", "boolab", lambda c: boolab(_get_type_boolability(c, is_exact=True))))
     out.append(table("gen_meta_boolab", "boolab", lambda c: boolab(_get_type_boolability(type(c), is_exact=True))))
     def meta_name(c):
-        _expect(type(c) in rev, f"metaclass {type(c)} of {c} is outside the universe")
-        return U.COQ_CLS[rev[type(c)]]
+        # the nearest universe class in the metaclass's MRO (ABCMeta is projected to type)
+        for m in type(c).__mro__:
+            if m in rev:
+                return U.COQ_CLS[rev[m]]
+        raise TranslateError(f"metaclass {type(c)} of {c} is outside the universe")
 
     out.append(table("gen_meta", "cls", meta_name))
     import enum
